@@ -36,6 +36,11 @@ class C14:
             ["L", [["D", []]] * 2100], ["L", [["L", []]] * 2100], ["T", [["T", []]] * 2100], ["L", [["D", [[one, two]]]] * 2500],
             ["L", [["S", []]] * 2100],
         ]
+        # one mutable container object referenced several times inside the value ([row] * 3, {'x': d, 'y': d})
+        row = ["L", [one, two]]
+        dd = ["D", [[one, two]]]
+        vals += [["L", [["=", 0, row], ["=", 0, row], ["=", 0, row]]], ["T", [["=", 0, dd], ["=", 0, dd]]],
+                 ["D", [[one, ["=", 0, row]], [two, ["=", 0, row]]]], ["L", [["=", 0, ["S", [one]]], ["=", 0, ["S", [one]]]]]]
         for h in HOSTS:
             for v in vals:
                 yield {"host": h, "value": v}
@@ -56,6 +61,8 @@ class C14:
             res.reject = "malformed-case"
             return res
         r = ctx.pool.host(host).call("x_marsh", value=value)
+        if r.get("aliasing"):
+            res.fail("C14|loads|result-shared-between-calls", "on %s: %s" % (host, r["aliasing"]))
         want = cn.normalize_nan(r["value"])
         kinds = gv.kinds_in(value)
         sigk = "C14"
